@@ -58,6 +58,8 @@ pub enum Op {
     SetMaxSize(u64),
     /// store consumer offset for consumer 1 on partition 1
     Store(u64),
+    /// send n fresh messages to partition 2
+    Send2(u8),
 }
 
 impl Op {
@@ -76,6 +78,7 @@ impl Op {
             Op::SetExpiry(u) => format!("E{u}"),
             Op::SetMaxSize(u) => format!("Z{u}"),
             Op::Store(o) => format!("O{o}"),
+            Op::Send2(n) => format!("T{n}"),
         }
     }
 }
@@ -158,7 +161,8 @@ pub struct Template {
 pub fn build_template(scratch: &Scratch, cfg: &NodeCfg, partitions: u32) -> Template {
     let dir = scratch.named(&format!("tpl-{}", blake3::hash(cfg.label().as_bytes()).to_hex()[..12].to_string()));
     let _ = std::fs::remove_dir_all(&dir);
-    iggy::verif::clock_set(T0, cfg.tick);
+    // frozen clock: the template's bytes must not depend on how often the TCP path reads the clock
+    iggy::verif::clock_set(T0, 0);
     let mut node = Node::start(&dir, cfg, Transports::TCP).expect("template start");
     let client = node.tcp_root_client();
     node.block_on(async {
@@ -190,6 +194,9 @@ pub struct World {
     pub seq: u64,
     pub maintain_cmd: Option<MaintainMessagesCommand>,
     pub panicked: Option<String>,
+    pub tr: Transports,
+    /// lazily connected root client: catalogue changes must go through a real handler to be journalled
+    pub admin: Option<iggy::clients::client::IggyClient>,
 }
 
 pub fn sid() -> Identifier {
@@ -198,14 +205,19 @@ pub fn sid() -> Identifier {
 
 impl World {
     pub fn new(scratch: &Scratch, tpl: &Template) -> Result<World, StartError> {
+        Self::new_with(scratch, tpl, Transports::NONE)
+    }
+
+    pub fn new_with(scratch: &Scratch, tpl: &Template, tr: Transports) -> Result<World, StartError> {
         let dir = scratch.fresh();
         copy_tree(&tpl.dir, &dir);
         iggy::verif::clock_set(T0 + 1_000_000, tpl.cfg.tick);
-        let node = Node::start(&dir, &tpl.cfg, Transports::NONE)?;
-        Ok(World { node, cfg: tpl.cfg.clone(), dir, seq: 0, maintain_cmd: None, panicked: None })
+        let node = Node::start(&dir, &tpl.cfg, tr)?;
+        Ok(World { node, cfg: tpl.cfg.clone(), dir, seq: 0, maintain_cmd: None, panicked: None, tr, admin: None })
     }
 
     pub fn finish(mut self) {
+        self.admin = None;
         self.node.crash();
         let _ = std::fs::remove_dir_all(&self.dir);
     }
@@ -221,13 +233,14 @@ impl World {
             };
             let payload = format!("pl-{:04}-xyz", self.seq).into_bytes();
             let has_headers = self.seq % 3 == 0;
+            // exactly one header: a HashMap with two entries serialises in a per-instance random order,
+            // which would make the file bytes (and so the state keys) irreproducible
             let headers = if has_headers {
                 let mut h = HashMap::new();
                 h.insert(
                     HeaderKey::new("k").unwrap(),
                     HeaderValue::from_str(&format!("v{}", self.seq)).unwrap(),
                 );
-                h.insert(HeaderKey::new("n").unwrap(), HeaderValue::from_uint32(self.seq as u32).unwrap());
                 Some(h)
             } else {
                 None
@@ -296,8 +309,10 @@ impl World {
     }
 
     pub fn restart(&mut self, drain: bool) -> Result<(), String> {
+        self.admin = None;
+        self.maintain_cmd = None;
         let stop = self.node.stop_clean(drain);
-        let node = Node::start(&self.dir, &self.cfg, Transports::NONE);
+        let node = Node::start(&self.dir, &self.cfg, self.tr);
         match node {
             Ok(n) => {
                 self.node = n;
@@ -340,22 +355,38 @@ impl World {
     pub fn update_topic(&mut self, expiry: Option<u64>, max_size: Option<u64>) -> Result<(), String> {
         let shared = self.node.shared();
         let root = self.node.root.clone();
+        let (cur_exp, cur_max) = self.node.block_on(async move {
+            let system = shared.read().await;
+            let t = system.find_topic(&root, &sid(), &sid()).expect("topic");
+            (t.message_expiry, t.max_topic_size)
+        });
+        let exp = match expiry {
+            None => cur_exp,
+            Some(0) => IggyExpiry::NeverExpire,
+            Some(u) => IggyExpiry::ExpireDuration(IggyDuration::from(u)),
+        };
+        let max = match max_size {
+            None => cur_max,
+            Some(0) => MaxTopicSize::Unlimited,
+            Some(b) => MaxTopicSize::Custom(b.into()),
+        };
+        if self.node.tcp_addr.is_some() {
+            // through the real TCP handler, so that the change is journalled and survives a restart
+            if self.admin.is_none() {
+                self.admin = Some(self.node.tcp_root_client());
+            }
+            let client = self.admin.as_ref().unwrap();
+            let r = self.node.try_block_on(async {
+                client
+                    .update_topic(&sid(), &sid(), "t1", CompressionAlgorithm::None, None, exp, max)
+                    .await
+            });
+            return self.flatten(r);
+        }
+        let shared = self.node.shared();
+        let root = self.node.root.clone();
         let r = self.node.try_block_on(async move {
             let mut system = shared.write().await;
-            let (cur_exp, cur_max) = {
-                let t = system.find_topic(&root, &sid(), &sid())?;
-                (t.message_expiry, t.max_topic_size)
-            };
-            let exp = match expiry {
-                None => cur_exp,
-                Some(0) => IggyExpiry::NeverExpire,
-                Some(u) => IggyExpiry::ExpireDuration(IggyDuration::from(u)),
-            };
-            let max = match max_size {
-                None => cur_max,
-                Some(0) => MaxTopicSize::Unlimited,
-                Some(b) => MaxTopicSize::Custom(b.into()),
-            };
             system
                 .update_topic(&root, &sid(), &sid(), "t1", exp, CompressionAlgorithm::None, max, None)
                 .await
@@ -368,6 +399,10 @@ impl World {
         let out = match op {
             Op::Send(n) => {
                 let (msgs, result) = self.send_to(1, None, *n as usize);
+                StepOut::Sent { msgs, result }
+            }
+            Op::Send2(n) => {
+                let (msgs, result) = self.send_to(2, None, *n as usize);
                 StepOut::Sent { msgs, result }
             }
             Op::SendIds(ids) => {
